@@ -31,7 +31,7 @@ def run(rep, ctx, tier):
         g = ctx.graph(a)
         rep.count("bodies_in_scope", len(g.scope))
         R3.run(rep, ctx, a, "R3")
-        for name, comp in R1.proof_components(a):
+        for name, comp in R1.proof_components(a, ctx.facts):
             ok, detail, where, n = R1.component(ctx, a, comp, cut_sponge=True)
             rep.add("R1", "%s:%s" % (a.key, name), ok, detail, where or a.body.span, nontrivial=n > 0)
         zips += R4.run_zip(rep, ctx, a, "R4a")
